@@ -319,10 +319,47 @@ def check_gaussian_merge_interpreted(rng):
             bad(f"{label}: with the opaque gates interpreted as fixed unitaries the compiled program {[(type(c.op).__name__, [r.ind for r in c.reg]) for c in comp.circuit]} computes something else (max difference {err:.3g})")
 
 
+def check_gaussian_merge_exhaustive(rng):
+    """every sequence of up to 4 (thorough: 5) commands over a small two-mode alphabet with displacing, non-displacing, two-mode
+    and opaque (non-Gaussian) commands, compiled with gaussian_merge: same commands on every wire around every opaque gate,
+    same computation with the opaque gates interpreted as fixed unitaries"""
+    import itertools
+    ALPHA = [("Sgate", (0.3, 0.1), (0,)), ("Dgate", (0.4, 0.1), (0,)), ("Rgate", (0.5,), (1,)), ("Dgate", (0.2, 0.7), (1,)),
+             ("BSgate", (0.7, 0.2), (0, 1)), ("Kgate", (0.5,), (0,)), ("Kgate", (0.3,), (1,)), ("CKgate", (0.4,), (0, 1))]
+    L = 4 if tier == "quick" else 5
+    import warnings as _w
+    for ln in range(2, L + 1):
+        for seq in itertools.product(range(len(ALPHA)), repeat=ln):
+            names = [ALPHA[i][0] for i in seq]
+            if not any(nm in ("Kgate", "CKgate") for nm in names) or sum(nm not in ("Kgate", "CKgate") for nm in names) < 2:
+                continue
+            EVAL[0] += 1
+            gates = [(ALPHA[i][0], ALPHA[i][1], ALPHA[i][2], False) for i in seq]
+            prog = build(2, gates, measure="fock")
+            label = f"gaussian_merge on {[(g[0], g[2]) for g in gates]}"
+            try:
+                with _w.catch_warnings():
+                    _w.simplefilter("ignore")
+                    comp = prog.compile(compiler="gaussian_merge")
+                mu0, V0 = run_interpreted(2, prog.circuit)
+                mu1, V1 = run_interpreted(2, comp.circuit)
+            except Exception as e:
+                bad(f"{label}: raised {type(e).__name__}: {str(e)[:150]}")
+                return
+            err = max(abs(mu0 - mu1).max(), abs(V0 - V1).max())
+            if err > 1e-6:
+                bad(f"{label}: the compiled program {[(type(c.op).__name__, [r.ind for r in c.reg]) for c in comp.circuit]} computes something else (max difference {err:.3g})")
+                return
+
+
 if __name__ == "__main__":
     rng = np.random.RandomState(seed + 11)
     np.random.seed(seed + 11)
-    for f in (check_unitary_compilers, check_dagger, check_gaussian_merge, check_gaussian_merge_interpreted):
+    PROP = sys.argv[3] if len(sys.argv) > 3 else "C11"
+    # C04 (reorderings respect dependencies): only the DAG surgery of gaussian_merge
+    FNS = (check_gaussian_merge_interpreted, check_gaussian_merge_exhaustive) if PROP == "C04" else (
+        check_unitary_compilers, check_dagger, check_gaussian_merge, check_gaussian_merge_interpreted, check_gaussian_merge_exhaustive)
+    for f in FNS:
         try:
             f(rng)
         except Exception:
